@@ -38,7 +38,8 @@ OK_INDEX = {
     (VAR, ("mask", VARD)), (VARD, ("mask", VARD)),
 }
 PASS_THROUGH_FUNCS = {"hstack", "concatenate", "asarray", "array", "copy", "tile", "astype", "tolist", "to_list", "unique", "flatten",
-                      "ravel", "squeeze", "deepcopy", "list", "sorted", "int", "append", "values", "to_numpy"}
+                      "ravel", "squeeze", "deepcopy", "list", "sorted", "int", "append", "values", "to_numpy", "cumsum", "cumprod",
+                      "abs", "negative", "nan_to_num"}
 
 
 def _j(a, b):
